@@ -366,7 +366,7 @@ XMODEL = T(('~value', Lst('d')), ('~angles', Lst(Lst('d'))))
 
 # ---- classes without a model: dump / reload / dump on the implementation, printed text, record traces
 def gq(rng, lo=-64, hi=64, den=64): return D(Fraction(rng.randint(lo, hi), den))
-def gen_dbline(rng, quick): return [rng.choice([1, 2, 3]), rng.choice([1, 2, 4]), rng.choice([1, 3, 5]), rng.randint(1, 10 ** 5)], ''
+def gen_dbline(rng, quick): return [rng.choice([1, 2, 3]), rng.choice([1, 2, 4]), rng.choice([2, 3, 5]), rng.randint(1, 10 ** 5)], ''
 def gen_dbgrapho(rng, quick):
     n = rng.choice([2, 4, 7])
     arcs = []; seen = set()
@@ -395,15 +395,15 @@ def gen_meshstd(rng, quick):
         for i in range(k + 1):
             ap += [D(Fraction(i)), D(Fraction(0)), D(Fraction(i)), D(Fraction(1) + Fraction(rng.randint(0, 8), 16))]
         for i in range(k):
-            a, b, c, d = 2 * i + 1, 2 * i + 2, 2 * i + 3, 2 * i + 4
+            a, b, c, d = 2 * i, 2 * i + 1, 2 * i + 2, 2 * i + 3
             me += [a, b, c, b, c, d]
         return [2, ap, me], '2d'
     ap = [D(Fraction(x)) for p in [(0, 0, 0), (1, 0, 0), (0, 1, 0), (0, 0, 1), (1, 1, 1)] for x in p]
-    return [3, ap, [1, 2, 3, 4, 2, 3, 4, 5]], '3d'
+    return [3, ap, [0, 1, 2, 3, 1, 2, 3, 4]], '3d'
 RULES = [['S', 'F1', 'T', 'F2', 'S', 'F3', 'F4'], ['S', 'F1', 'F2'], ['T', 'F1', 'F2'], ['S', 'S', 'F1', 'F2', 'F3'], ['S', 'T', 'F1', 'F2', 'T', 'F3', 'F4']]
 def gen_rule(rng, quick): return [[S(x) for x in rng.choice(RULES)], D(Fraction(rng.choice([0, 0, 4, -3, 7]), 8))], ''
-def gen_ruleshift(rng, quick): return [[S(x) for x in rng.choice([['S', 'S', 'S', 'F1', 'F2', 'F3', 'F4'], ['S', 'F1', 'F2']])], [gq(rng, 1, 64), gq(rng, 0, 64)] + ([gq(rng)] if rng.random() < .3 else [])], ''
-def gen_ruleshadow(rng, quick): return [gq(rng, 1, 64), gq(rng, 1, 128), gq(rng, -128, -1), [gq(rng, 1, 64), gq(rng, 0, 64)]], ''
+def gen_ruleshift(rng, quick): return [[S(x) for x in rng.choice([['S', 'S', 'S', 'F1', 'F2', 'F3', 'F4'], ['S', 'F1', 'F2']])], [gq(rng, 1, 64), gq(rng, 0, 64)] + ([gq(rng)] if rng.random() < .8 else [])], ''
+def gen_ruleshadow(rng, quick): return [gq(rng, 1, 64), gq(rng, 1, 128), gq(rng, -128, -1), [gq(rng, 1, 64), gq(rng, 0, 64)] + ([gq(rng)] if rng.random() < .8 else [])], ''
 def gen_faults(rng, quick):
     out = []
     for _ in range(rng.choice([0, 1, 2, 4])):
@@ -452,6 +452,12 @@ CLASSES = [
 ]
 BYID = {c.cid: c for c in CLASSES}
 
+def beh_key(cls, path, case):
+    if cls.name == 'AnamEmpirical': return 'AnamEmpirical:dilution-flags-not-saved'
+    if cls.name == 'MeshEStandard': return 'MeshEStandard:space-dimension-not-restored'
+    if cls.name in ('RuleShift', 'RuleShadow') and len(case[2][1] if cls.name == 'RuleShift' else case[2][3]) < 3: return 'RuleShift:shift-padded-to-3-components'
+    return '%s:behaviour-%s-differs' % (cls.name, path.split('~')[-1].rstrip('#'))
+
 def fail_key(cls, case, what):
     """key of a dump / reload failure or crash: the option combination that explains it when there is one"""
     if cls.name in ('Db', 'DbGrid'):
@@ -459,6 +465,9 @@ def fail_key(cls, case, what):
         if any(' ' in US(c[0]) for c in cols): return 'Db:column-name-with-blank'
         if any(US(c[0]).startswith('#') for c in cols): return 'Db:column-name-starting-with-hash'
     if cls.name == 'Vario' and case[2][2] in (1, 2, 9): return 'Vario:calcul-type-not-saved'
+    if cls.name == 'FracEnviron' and what == 'reload-fails': return 'FracEnviron:class-tag-with-blank'
+    if cls.name == 'NeighImage' and what == 'crash': return 'NeighImage:reload-writes-radius-out-of-bounds'
+    if cls.name == 'DbLine' and what == 'crash' and case[2][2] < 2: return 'DbLine:single-sample-lines-crash-on-reload'
     return '%s:%s' % (what if what == 'crash' else cls.name, cls.name if what == 'crash' else what)
 
 # refined keys: (class, path) -> canonical key of a known asymmetry; default is '<Class>:<path>-not-preserved'
@@ -604,7 +613,7 @@ def main_part(ctx, quick, rng, runner, exe, env):
             beh = []
             for path, a, b in diffs(cls.G, G0, G1, undy, undy, same15) + diffs(cls.X, X0, X1, undy, undy, same15):
                 text = '%s: %s is %r before saving and %r after reloading' % (cls.name, path.replace('~', ''), a, b)
-                if '~' in path: beh.append(('%s:behaviour-%s-differs' % (cls.name, path.split('~')[-1].rstrip('#')), text)); continue
+                if '~' in path: beh.append((beh_key(cls, path, c), text)); continue
                 k = key_of(cls, path, a, b, c)
                 if k: vio.append((k, text))
             if not vio: vio += beh[:1]      # a derived quantity differs although every getter agrees
@@ -681,6 +690,7 @@ def trace_mismatch(tw, tr):
     def flat(t):
         out = []
         for rw, ty, cnt, title in t:
+            if chr(ty) == 't': continue          # class tag line (read by hand for the classes without createFromNF)
             out += [(chr(ty), US(title))] * (1 if cnt < 0 else cnt)
         return out
     a, b = flat(tw), flat(tr)
